@@ -41,6 +41,9 @@ type detemper struct {
 	body *ast.BlockStmt
 
 	writes   map[types.Object]int          // assignments other than the defining one, &v, partial writes of values
+	wsites   map[types.Object][]writeSite  // where those writes are (traversal order, enclosing loops)
+	seq      map[ast.Node]int              // traversal order of statements
+	loopsOf  map[ast.Node][]ast.Node       // loops enclosing a statement
 	uses     map[types.Object][]*ast.Ident // reads (identifier uses) in source order
 	captured map[types.Object]bool         // used inside a function literal other than the one declaring it
 }
@@ -56,8 +59,18 @@ func (d *detemper) obj(e ast.Expr) types.Object {
 	return d.info.Defs[id]
 }
 
+type writeSite struct {
+	seq   int
+	loops []ast.Node
+}
+
 func (d *detemper) index() {
 	d.writes = map[types.Object]int{}
+	d.wsites = map[types.Object][]writeSite{}
+	d.seq = map[ast.Node]int{}
+	d.loopsOf = map[ast.Node][]ast.Node{}
+	counter := 0
+	var loopStack []ast.Node
 	d.uses = map[types.Object][]*ast.Ident{}
 	d.captured = map[types.Object]bool{}
 	declLit := map[types.Object]*ast.FuncLit{}
@@ -81,6 +94,7 @@ func (d *detemper) index() {
 				// base of an assignment target is no mere name for a value either)
 				_ = whole
 				d.writes[o]++
+				d.wsites[o] = append(d.wsites[o], writeSite{counter, append([]ast.Node(nil), loopStack...)})
 				return
 			case *ast.SelectorExpr:
 				if d.info.Selections[t] == nil {
@@ -98,10 +112,49 @@ func (d *detemper) index() {
 	}
 	var visit func(n ast.Node) bool
 	visit = func(n ast.Node) bool {
+		if n == nil {
+			return false
+		}
+		counter++
+		if st, isStmt := n.(ast.Stmt); isStmt {
+			d.seq[st] = counter
+			d.loopsOf[st] = append([]ast.Node(nil), loopStack...)
+		}
 		switch t := n.(type) {
+		case *ast.ForStmt, *ast.RangeStmt:
+			// children are visited with the loop on the stack
+			loopStack = append(loopStack, t)
+			switch l := t.(type) {
+			case *ast.ForStmt:
+				for _, c := range []ast.Node{l.Init, l.Cond, l.Post, l.Body} {
+					if c != nil && !isNilNode(c) {
+						ast.Inspect(c, visit)
+					}
+				}
+			case *ast.RangeStmt:
+				// the range statement's own key/value writes
+				for _, e := range []ast.Expr{l.Key, l.Value} {
+					if e == nil {
+						continue
+					}
+					if id, ok := e.(*ast.Ident); ok && l.Tok == token.DEFINE && d.info.Defs[id] != nil {
+						declLit[d.info.Defs[id]] = cur()
+						d.writes[d.info.Defs[id]]++
+						continue
+					}
+					markWrite(e)
+				}
+				ast.Inspect(l.X, visit)
+				ast.Inspect(l.Body, visit)
+			}
+			loopStack = loopStack[:len(loopStack)-1]
+			return false
 		case *ast.FuncLit:
 			lits = append(lits, t)
+			saved := loopStack
+			loopStack = append(append([]ast.Node(nil), saved...), t) // a literal may run any number of times
 			ast.Inspect(t.Body, visit)
+			loopStack = saved
 			lits = lits[:len(lits)-1]
 			return false
 		case *ast.AssignStmt:
@@ -120,18 +173,6 @@ func (d *detemper) index() {
 			}
 		case *ast.IncDecStmt:
 			markWrite(t.X)
-		case *ast.RangeStmt:
-			for _, e := range []ast.Expr{t.Key, t.Value} {
-				if e == nil {
-					continue
-				}
-				if id, ok := e.(*ast.Ident); ok && t.Tok == token.DEFINE && d.info.Defs[id] != nil {
-					declLit[d.info.Defs[id]] = cur()
-					d.writes[d.info.Defs[id]]++ // rebound every iteration
-					continue
-				}
-				markWrite(e)
-			}
 		case *ast.UnaryExpr:
 			if t.Op == token.AND {
 				x := t.X
@@ -224,7 +265,7 @@ func (d *detemper) list(list []ast.Stmt) ([]ast.Stmt, bool) {
 		uses := d.uses[v]
 		ok := false
 		switch {
-		case d.stablePath(e):
+		case d.stablePath(e) || d.settledCopy(list[i], e):
 			for _, u := range uses {
 				d.replace(d.body, u, d.copyExpr(e, u.Pos()))
 			}
@@ -273,7 +314,7 @@ func (d *detemper) tempDef(s ast.Stmt) (*types.Var, ast.Expr) {
 	if v == nil || d.writes[v] > 0 || len(d.uses[v]) == 0 {
 		return nil, nil
 	}
-	if d.captured[v] && !d.stablePath(e) {
+	if d.captured[v] && !d.stablePath(e) && !d.settledCopy(s, e) {
 		return nil, nil // a closure reads it later: only a value that can never change may be put in its place
 	}
 	if tv, ok := d.info.Types[e]; ok && tv.Value != nil {
@@ -293,6 +334,38 @@ func (d *detemper) tempDef(s ast.Stmt) (*types.Var, ast.Expr) {
 }
 
 // stablePath: x.f.g without indirection, rooted in a local variable that is never written (again).
+// settledCopy: `v := w` where every write of the local w happens before this statement and outside any
+// loop that also contains it: from here on w and v denote the same value.
+func (d *detemper) settledCopy(def ast.Stmt, e ast.Expr) bool {
+	id, ok := ast.Unparen(e).(*ast.Ident)
+	if !ok {
+		return false
+	}
+	o, ok := d.obj(id).(*types.Var)
+	if !ok || o.IsField() || o.Pkg() == nil || o.Parent() == o.Pkg().Scope() || d.captured[o] {
+		return false
+	}
+	at, known := d.seq[def]
+	if !known {
+		return false
+	}
+	inLoop := map[ast.Node]bool{}
+	for _, l := range d.loopsOf[def] {
+		inLoop[l] = true
+	}
+	for _, w := range d.wsites[o] {
+		if w.seq >= at {
+			return false
+		}
+		for _, l := range w.loops {
+			if inLoop[l] {
+				return false
+			}
+		}
+	}
+	return true
+}
+
 func (d *detemper) stablePath(e ast.Expr) bool {
 	// the address of a local variable never changes
 	if u, ok := ast.Unparen(e).(*ast.UnaryExpr); ok && u.Op == token.AND {
